@@ -58,8 +58,7 @@ func cut(r *rand.Rand, v val, maxDepth int) (int, int, bool) {
 	return 0, 0, false
 }
 
-// atomicInside reports whether piece i lies inside url( … ) or [ … ], whose contents var() cannot
-// (url) or is not expected to (line names, see notes) replace.
+// atomicInside reports whether piece i lies inside url( … ), whose contents var() cannot replace.
 func (v val) atomicInside(i int) bool {
 	var stack []string
 	for k := 0; k < i; k++ {
@@ -73,9 +72,7 @@ func (v val) atomicInside(i int) bool {
 		}
 	}
 	for _, s := range stack {
-		if s == "url(" || (s == "[" && on("var-in-brackets")) {
-			// F-C08-var-in-brackets: validation.HasVar does not look inside [ ] blocks, so a var() among
-			// grid line names is never substituted.
+		if s == "url(" {
 			return true
 		}
 	}
@@ -145,10 +142,6 @@ func genVar(r *rand.Rand) c08In {
 			b = []declT{{Name: name, V: T}, use(varRef(name, nil))}
 			in.Note = "override"
 		case k < 16: // fallback of an undefined property
-			if hasTopComma(T) && on("var-fallback-commas") {
-				// F-C08-var-fallback-commas: the commas of a fallback are dropped (var(--u, a, b) gives "a b").
-				continue
-			}
 			b = []declT{use(varRef(name, T))}
 			in.Note = "fallback"
 		case k < 17: // fallback not used
@@ -204,25 +197,11 @@ func genVarInvalid(r *rand.Rand) c08In {
 		if hasRelativeURL(d.V) && on("var-url-base") {
 			continue
 		}
-		skip := false
-		for _, n := range names {
-			// F-C08-invalid-accepted: these validators return a typed zero value for any input, so an
-			// ill-typed substitution is accepted instead of being invalid at computed-value time.
-			skip = skip || acceptsAnything[n] && on("invalid-accepted")
-		}
-		if skip {
-			continue
-		}
 		i, j, ok := cut(r, d.V, 0)
 		if !ok {
 			continue
 		}
 		whole := r.Intn(2) == 0
-		for _, n := range names {
-			// F-C08-invalid-accepted (partial): font-feature-settings accepts any second token after a tag
-			// ("liga" 7qq is read as "liga" 0); only whole-value substitutions are generated for it.
-			whole = whole || acceptsPartialJunk[n] && on("invalid-accepted")
-		}
 		if whole {
 			i, j = 0, len(d.V)
 		}
@@ -234,10 +213,12 @@ func genVarInvalid(r *rand.Rand) c08In {
 		var a, b []declT
 		use := func(ref val) declT { return declT{Name: d.Name, V: splice(d.V, i, j, ref)} }
 		k := r.Intn(5)
-		if k == 1 && !(i == 0 && j == len(d.V)) && on("var-undefined-empty") {
-			// F-C08-var-undefined-empty: a var() naming a missing property, without fallback, is replaced
-			// by nothing instead of invalidating the declaration; only visible next to other tokens.
-			i, j = 0, len(d.V)
+		for _, n := range names {
+			if n == "transform-origin" && !(i == 0 && j == len(d.V)) && on("transform-origin-third-value") {
+				// F-C08-transform-origin-third-value: the third component of transform-origin is dropped
+				// without being validated, so `left bottom 12xyz` is accepted; whole-value substitution only.
+				i, j = 0, len(d.V)
+			}
 		}
 		switch k {
 		case 0: // ill-typed substitution
@@ -292,7 +273,7 @@ type cpItem struct {
 type cpGraph map[string][]cpItem
 
 // resolve implements the reference semantics; ok=false means invalid at computed-value time.
-func (g cpGraph) resolveAll() map[string]val {
+func (g cpGraph) resolveAll() (map[string]val, map[string]bool) {
 	// cycle detection: Tarjan-free version for ≤ 5 nodes: x is cyclic if x reaches x
 	reach := map[string]map[string]bool{}
 	for x, items := range g {
@@ -364,7 +345,13 @@ func (g cpGraph) resolveAll() map[string]val {
 	for _, x := range names {
 		eval(x)
 	}
-	return resolved
+	cyclic := map[string]bool{}
+	for x := range g {
+		if reach[x][x] {
+			cyclic[x] = true
+		}
+	}
+	return resolved, cyclic
 }
 
 func genVarCycle(r *rand.Rand) c08In {
@@ -399,7 +386,7 @@ func genVarCycle(r *rand.Rand) c08In {
 		}
 		g[x] = items
 	}
-	res := g.resolveAll()
+	res, cyclic := g.resolveAll()
 	used := names[r.Intn(n)]
 	var fb val
 	if r.Intn(2) == 0 {
@@ -426,15 +413,15 @@ func genVarCycle(r *rand.Rand) c08In {
 	// does the used property reach (through any reference) a property that is invalid at
 	// computed-value time, or a missing one referenced without fallback?
 	seen := map[string]bool{}
-	touchesInvalid, touchesDangling := false, false
+	touchesCycle, touchesDangling := false, false
 	var walk func(x string)
 	walk = func(x string) {
 		if seen[x] {
 			return
 		}
 		seen[x] = true
-		if _, ok := res[x]; !ok {
-			touchesInvalid = true
+		if cyclic[x] {
+			touchesCycle = true
 		}
 		for _, it := range g[x] {
 			if it.ref == "" {
@@ -450,12 +437,9 @@ func genVarCycle(r *rand.Rand) c08In {
 	walk(used)
 	in.Note = "valid-graph"
 	switch {
-	case touchesDangling:
+	case touchesDangling && !touchesCycle:
 		in.Note = "missing-reference"
-		if on("var-undefined-empty") {
-			in.ReportOnly = "var-undefined-empty"
-		}
-	case touchesInvalid:
+	case touchesCycle:
 		in.Note = "cycle"
 		if on("var-cycle-semantics") {
 			// F-C08-var-cycle-semantics: a reference that closes a cycle is replaced by its fallback (or by
@@ -492,22 +476,6 @@ func genVarCycle(r *rand.Rand) c08In {
 	}
 	in.B = blockText(b)
 	return in
-}
-
-// hasTopComma reports whether v has a comma outside any function.
-func hasTopComma(v val) bool {
-	depth := 0
-	for _, p := range v {
-		switch {
-		case p.K == kFunc || p.T == "[":
-			depth++
-		case p.K == kClose || p.T == "]":
-			depth--
-		case p.T == "," && p.K == kPunct && depth == 0:
-			return true
-		}
-	}
-	return false
 }
 
 // wordLike: a piece after which a function name may not follow without a separator
